@@ -12,8 +12,9 @@ type vhC08Ctx struct {
 	a, b *vObj
 	newA int64
 	res  []string // observable results of the calls, per thread slot
-	s0   *Search  // evaluated before the concurrent phase
-	s1   *Search
+	// search values evaluated before the concurrent phase, one per thread
+	// (a Search value itself is not shared between goroutines)
+	sv []*Search
 }
 
 var vhC08Names = []string{"Get", "Exist", "Count", "All", "Search", "SearchUnindexed", "SearchAnd", "SearchOr", "Collect",
@@ -31,7 +32,7 @@ func vhErrS(err error) string {
 // observed into c.res[slot].
 func vhC08Op(c *vhC08Ctx, k, slot int) func() {
 	db := c.db
-	if c.s0 == nil { // first-access modes: the search values are created inside the call
+	if c.sv == nil { // first-access modes: the search values are created inside the call
 		switch vhC08Names[k] {
 		case "SearchAnd", "SearchOr", "Collect":
 			return func() {
@@ -76,16 +77,16 @@ func vhC08Op(c *vhC08Ctx, k, slot int) func() {
 		}
 	case "SearchAnd": // one refinement call on a search evaluated beforehand
 		return func() {
-			sr := c.s0.And("S", "=", "s")
+			sr := c.sv[slot].And("S", "=", "s")
 			set(string(rune('0'+sr.Len())) + vhErrS(sr.Err()))
 		}
 	case "SearchOr":
 		return func() {
-			sr := c.s0.Or("A", "=", int64(7))
+			sr := c.sv[slot].Or("A", "=", int64(7))
 			set(string(rune('0'+sr.Len())) + vhErrS(sr.Err()))
 		}
 	case "Collect":
-		return func() { set(cnt(c.s1.Collect())) }
+		return func() { set(cnt(c.sv[slot].Collect())) }
 	case "AssignIndex":
 		return func() {
 			var t []int64
@@ -140,8 +141,9 @@ func vhC08Setup(mode int) *vhC08Ctx {
 		vAssert("C08.pre.close", db.Close() == nil)
 		c.db = Open(root)
 	} else {
-		c.s0 = c.db.Search(&vObj{}, "A", ">=", int64(0))
-		c.s1 = c.db.Search(&vObj{}, "A", ">=", int64(0))
+		for k := 0; k < 3; k++ {
+			c.sv = append(c.sv, c.db.Search(&vObj{}, "A", ">=", int64(0)))
+		}
 	}
 	return c
 }
